@@ -72,4 +72,34 @@ def extFromFile {U : Type} (rows : List (List K)) (i j : Nat) (wavUnit chiUnit :
   | .ok (ws, cs) => .ok ⟨⟨wavUnit, ws⟩, ⟨chiUnit, cs⟩⟩
   | .error e => .error e
 
+/-! ## Several law objects: copies and later assignments
+
+Objects live in a heap (a list; the index is the object's identity).  `copy.copy`, `copy.deepcopy` and a
+pickle round trip all create a NEW object from the explicit state (`__getstate__` / `__setstate__` build a
+fresh attribute dict); assigning `law.chi = …` or `law.wav = …` replaces an attribute of ONE object. -/
+
+/-- `copy.copy(h[i])` / `copy.deepcopy(h[i])` / `pickle.loads(pickle.dumps(h[i]))`: the new object is appended -/
+def heapCopy {U : Type} (h : List (ExtLaw U K)) (i : Nat) : List (ExtLaw U K) :=
+  match h[i]? with
+  | some law => h ++ [extSetState (extGetState law)]
+  | none => h
+
+/-- `to_table` followed by `from_table`: a new object as well -/
+def heapViaTable {U : Type} (h : List (ExtLaw U K)) (i : Nat) : List (ExtLaw U K) :=
+  match h[i]? with
+  | some law => h ++ [extFromTable (extToTable law)]
+  | none => h
+
+/-- `h[i].chi = c` -/
+def heapSetChi {U : Type} (h : List (ExtLaw U K)) (i : Nat) (c : QCol U K) : List (ExtLaw U K) :=
+  match h[i]? with
+  | some law => h.set i { law with chi := c }
+  | none => h
+
+/-- `h[i].wav = w` -/
+def heapSetWav {U : Type} (h : List (ExtLaw U K)) (i : Nat) (w : QCol U K) : List (ExtLaw U K) :=
+  match h[i]? with
+  | some law => h.set i { law with wav := w }
+  | none => h
+
 end SF
